@@ -187,7 +187,7 @@ def generic_check(pid, tier, seed, mod):
         elif kind == "fidelity": fidelity.append((s, det))
         nt = getattr(mod, "nontrivial", None)
         if nt is None or nt(s, ml):
-            distinct.add(hash(tuple(ml)))
+            distinct.add(hash(tuple(s.cmds)))
         for t in s.tags: tagcount[t.split(":")[0] if t.startswith("corpus") else t] = tagcount.get(t.split(":")[0] if t.startswith("corpus") else t, 0) + 1
     if leaks and not viol:
         notes.append("LeakSanitizer reported at process exit: " + leaks[0][-600:])
